@@ -203,7 +203,7 @@ def _returned_texts(tu, fn, depth=0, keep=()):
 def r3_extension_returns_cursor(repo=None):
     r = Rule("C19.R3", "each successful write returns the C library's cursor read after the last library call")
     tu = cfront.ext(repo)
-    for fname in ("_py_rf_write_hdf5_rf_write", "_py_rf_write_hdf5_rf_block_write"):
+    for fname in (cfront.ext_fn(tu, "rf_write"), cfront.ext_fn(tu, "rf_block_write")):
         fn = tu.fn(fname)
         g = _cfg.build_c(fn)
         libcalls = [c for c in fn.calls(("digital_rf_write_hdf5", "digital_rf_write_blocks_hdf5"))]
